@@ -702,6 +702,101 @@ func rulesC05(p *Prog, r *Report) {
 		}
 	}
 
+	// R05.7c: a function that only COUNTS (no fill site) at a price it is given - the search for
+	// the matchable amount at a candidate price - judges every tick at that parameter, also
+	// inside its local closures (where the parameter is a captured variable).
+	for _, fn := range p.Funcs {
+		if fn.Pkg == nil || !strings.HasSuffix(fn.Pkg.Pkg.Path(), "x/liquidity/amm") || len(fn.Blocks) == 0 || fn == matchable || fn.Parent() != nil {
+			continue
+		}
+		var priceParams []*ssa.Parameter
+		for _, pr := range fn.Params {
+			if strings.HasSuffix(pr.Type().String(), "math.LegacyDec") {
+				priceParams = append(priceParams, pr)
+			}
+		}
+		if len(priceParams) != 1 {
+			continue
+		}
+		P := priceParams[0]
+		fns := append([]*ssa.Function{fn}, fn.AnonFuncs...)
+		hasFill := false
+		type js struct {
+			c   ssa.CallInstruction
+			f   *ssa.Function
+			arg ssa.Value
+		}
+		var judges []js
+		for _, f := range fns {
+			for _, c := range calls(f) {
+				sc := c.Common().StaticCallee()
+				if sc == nil || sc.Pkg != matchable.Pkg {
+					continue
+				}
+				switch sc.Name() {
+				case "FillOrder", "FulfillOrder", "FulfillOrders", "DistributeOrderAmountToTick", "DistributeOrderAmountToOrders":
+					hasFill = true
+				case "MatchableAmount", "TotalMatchableAmount":
+					if a := c.Common().Args; len(a) == 2 && f != fn {
+						judges = append(judges, js{c, f, a[1]})
+					}
+				}
+			}
+		}
+		if hasFill || len(judges) == 0 {
+			continue
+		}
+		isP := func(f *ssa.Function, v ssa.Value) bool {
+			if v == ssa.Value(P) {
+				return true
+			}
+			fv, ok := v.(*ssa.FreeVar)
+			if !ok {
+				if u, isU := v.(*ssa.UnOp); isU {
+					fv, ok = u.X.(*ssa.FreeVar)
+				}
+			}
+			if !ok {
+				return false
+			}
+			// the binding of the free variable where the closure is made
+			for _, b := range fn.Blocks {
+				for _, in := range b.Instrs {
+					mc, isMC := in.(*ssa.MakeClosure)
+					if !isMC || mc.Fn != ssa.Value(f) {
+						continue
+					}
+					for i, bv := range mc.Bindings {
+						if i < len(f.FreeVars) && f.FreeVars[i] == fv {
+							if bv == ssa.Value(P) {
+								return true
+							}
+							if al, isA := bv.(*ssa.Alloc); isA {
+								// a parameter spilled to a cell because a closure captures it
+								for _, ref := range *al.Referrers() {
+									if st, isSt := ref.(*ssa.Store); isSt && st.Addr == ssa.Value(al) && st.Val == ssa.Value(P) {
+										return true
+									}
+								}
+							}
+						}
+					}
+				}
+			}
+			return false
+		}
+		for i, j := range judges {
+			r.Instance("R05.7")
+			r.FuncsSeen[fname(fn)] = true
+			construct := fmt.Sprintf("%s closure judge #%d", fname(fn), i+1)
+			if isP(j.f, j.arg) {
+				r.OK("R05.7", construct, "judged at the price the function was asked about", p.instrPos(j.c))
+			} else {
+				r.Fail("R05.7", construct, "inside "+fname(fn)+" an amount is judged at another price than the one the function was asked about ("+P.Name()+"): the amount it reports for that price is not what matching at that price can take", p.instrPos(j.c), nil)
+			}
+		}
+	}
+
 	// R05.9 an order is skipped only when nothing of it is matchable -----------------------------
 	// FulfillOrder fills whatever MatchableAmount says; the tick and group totals count that same
 	// amount. The fill is reachable only behind `matchable > 0` - a stricter test (> 1) skips an
